@@ -1,7 +1,8 @@
 (* C18 - protocol model of python/tak/self_play.py:
      run_job / entrypoint                      (worker side)
      MultiprocessSelfPlayEngine.__attrs_post_init__ / play_many / stop   (parent side)
-   as it is after "fix: a self-play worker that crashes exits with a non-zero status".
+   as it is after "fix: a self-play worker that crashes exits with a non-zero status" (45b70e8)
+   and "fix: stop() does not wait forever for a worker that cannot exit" (28ebc86).
 
    The model is a step FUNCTION  step cfg e s : option state  (None = the event
    e is not enabled in s); the scheduler is the list of events a run is driven
@@ -27,7 +28,10 @@
    parent, stop():
      EStop, EStopPut (cmd.put(None, block=False) once per worker), EStopFull (that put raised
      queue.Full: stop() propagates it; shutdown is NOT set, nobody is joined), EStopSet
-     (shutdown.set()), EJoined (every p.join() returned).
+     (shutdown.set()), EJoined (every process exited by itself before the deadline),
+     EJoinTimeout (the deadline STOP_TIMEOUT passed: `p.join(timeout=...)` returned with the process
+     alive; every process still alive is killed and joined.  Exists only when join_timeout cfg;
+     before 28ebc86 the join had no timeout).
    worker w, entrypoint/run_job:
      WReady     engine_factory() returned
      WLock      cmd.get(block=True) acquired the queue's read lock (`with self._rlock:`); the
@@ -80,13 +84,14 @@ Record state := mkS {
   ws : list wstate; cmd : list (option Z); games : list gmsg;
   shutdown : bool; rdead : bool; par : parent }.
 
-Record config := mkC { raise_code : Z }.
-Definition current : config := mkC 1.     (* the tree as it is now *)
-Definition prefix : config := mkC 0.      (* before fix 45b70e8: `except Exception: print(...)`, exit 0 *)
+Record config := mkC { raise_code : Z; join_timeout : bool }.
+Definition current : config := mkC 1 true.        (* the tree as it is now *)
+Definition prefix : config := mkC 0 false.        (* before fix 45b70e8: `except Exception: print(...)`, exit 0 *)
+Definition pre_stopfix : config := mkC 1 false.   (* after 45b70e8, before 28ebc86: unbounded p.join() *)
 
 Inductive event :=
 | EBegin (n : nat) | EPut | EFull | EFillEnd | ERecv | ETimeout
-| EStop | EStopPut | EStopFull | EStopSet | EJoined
+| EStop | EStopPut | EStopFull | EStopSet | EJoined | EJoinTimeout
 | WReady (w : nat) | WLock (w : nat) | WTake (w : nat) | WFinish (w : nat) | WExit (w : nat)
 | FRaise (w : nat) | FKill (w : nat) (c : Z) | FKillMidPut (w : nat) (c : Z).
 
@@ -200,6 +205,16 @@ Definition step (cfg : config) (e : event) (s : state) : option state :=
   | EJoined =>
       match pc p with
       | PJoining => if forallb is_exited (ws s) then Some (set_pc s PStopped) else None
+      | _ => None
+      end
+  | EJoinTimeout =>
+      match pc p with
+      | PJoining =>
+          if join_timeout cfg
+          then Some (mkS (map kill_one (ws s)) (cmd s) (games s) (shutdown s)
+                         (rdead s || existsb is_reading (ws s))
+                         (mkP PStopped (outcome p) (target p) (todo p) (collected p) (next_id p)))
+          else None
       | _ => None
       end
   | WReady w =>
@@ -331,11 +346,11 @@ Definition hang_state (s : state) : bool :=
       end
   | _ => false
   end.
-(* stop() can never return unless a further fault occurs: it is joining, and every worker that
-   has not exited waits for the read lock of a dead process *)
-Definition stop_hang_state (s : state) : bool :=
+(* stop() can never return unless a further fault occurs: it is joining without a timeout, and
+   every worker that has not exited waits for the read lock of a dead process *)
+Definition stop_hang_state (cfg : config) (s : state) : bool :=
   match pc (par s) with
-  | PJoining => negb (forallb is_exited (ws s))
+  | PJoining => negb (join_timeout cfg) && negb (forallb is_exited (ws s))
                 && forallb (fun st => is_exited st || match st with Idle => rdead s | _ => false end) (ws s)
   | _ => false
   end.
@@ -351,12 +366,12 @@ Definition STOP_OK := 0.
 Definition STOP_FULL := 1.
 Definition STOP_HUNG := 2.
 Definition STOP_NOT_CALLED := 3.
-Definition stop_class (s : state) : Z :=
+Definition stop_class (cfg : config) (s : state) : Z :=
   match pc (par s) with
   | PStopped => STOP_OK
   | PStopFailed => STOP_FULL
   | PBetween | PFilling | PWaiting | PStuck => STOP_NOT_CALLED
-  | _ => if stop_hang_state s then STOP_HUNG else 4
+  | _ => if stop_hang_state cfg s then STOP_HUNG else 4
   end.
 
 Definition exit_code (st : wstate) : option Z := match st with Exited c => Some c | _ => None end.
@@ -387,7 +402,8 @@ Fixpoint run_segments (cfg : config) (segs : list segment) (s : state) : option 
   end.
 
 (* A scenario: number of workers; the requests; the schedule of stop() and what follows; the
-   observed result of stop() and the exit codes at the very end (None = still alive). *)
+   observed result of stop() and the exit codes at the very end (None = still alive).  Exit codes
+   are compared by class only (alive / zero / positive / negative): the property needs no more. *)
 Definition scenario : Type := nat * list segment * list event * (Z * list (option Z)).
 
 Definition scenario_ok (cfg : config) (sc : scenario) : bool :=
@@ -396,9 +412,10 @@ Definition scenario_ok (cfg : config) (sc : scenario) : bool :=
   | Some s1 =>
       match run cfg tail s1 with
       | Some s2 =>
-          (stop_class s2 =? stopcls)
+          (stop_class cfg s2 =? stopcls)
           && Nat.eqb (length codes) (length (ws s2))
-          && forallb (fun p => opt_z_eqb (exit_code (fst p)) (snd p)) (combine (ws s2) codes)
+          && forallb (fun p => opt_z_eqb (option_map Z.sgn (exit_code (fst p))) (option_map Z.sgn (snd p)))
+                     (combine (ws s2) codes)
       | None => false
       end
   | None => false
@@ -415,4 +432,4 @@ Definition scenario_view (cfg : config) (sc : scenario) :=
   let '(n, segs, tail, _) := sc in
   let tr := flat_map fst segs ++ tail in
   let '(i, s) := first_stuck cfg tr (init n) 0 in
-  (i, seg_class s, collected (par s), stop_class s, map exit_code (ws s), (length (cmd s), length (games s))).
+  (i, seg_class s, collected (par s), stop_class cfg s, map exit_code (ws s), (length (cmd s), length (games s))).
